@@ -139,8 +139,22 @@ def hashable(dotted: str) -> bool | None:
 
 UTC_NAMES = {"datetime.timezone.utc", "datetime.UTC"}
 
+# classes whose == is as fine as their printed form *and* which admit no subclass with extra printed state in this
+# library's traffic: a memoised function may render a parameter of these classes
+EXACT_EQ = {
+    "builtins.str": "text compares by content",
+    "builtins.bytes": "bytes compare by content",
+    "builtins.type": "classes compare by identity",
+    "uuid.UUID": "compares by its 128-bit value, which is what it prints",
+    "builtins.bool": "two values",
+}
+
 # classes whose == is coarser than their printed representation
 COARSE_EQ = {
+    "decimal.Decimal": "Decimal('1.10') == Decimal('1.1') but they print differently",
+    "builtins.float": "0.0 == -0.0, 1.0 == 1 == True across classes",
+    "builtins.int": "1 == 1.0 == True across classes",
+    "numbers.Number": "numbers compare across classes and precisions",
     "datetime.datetime": "aware datetimes compare by instant, not by offset",
     "datetime.time": "aware times compare by UTC-adjusted time",
     "datetime.date": "datetime subclasses date",
